@@ -7,6 +7,7 @@ are specification-side readers written in the model (cnfgen has no reader for th
 -/
 import Lemmas.IOOpb
 import Lemmas.IOLatex
+import Lemmas.IOLatexNames
 namespace Cnfgen.C12
 open Cnfgen Cnfgen.IO
 
@@ -82,6 +83,12 @@ theorem latex_constraint_row (names : List Str) (hT : TableOK names) (c : PBC) (
     (core : Row) (h : constraintCore names c = .ok core) (land last : Bool) :
     readConstraintRow names (frame land last core) = .ok c :=
   (constraintCore_read names hT c hop core h).2 land last
+
+/-- T-C12.2 (names): pairwise distinct names, none starting with `\overline{` and none with a `}`
+before the point where it is split for `\overline` (first `_`/`^` at a positive index), have pairwise
+distinct literal texts — so the two theorems above apply to them -/
+theorem latex_names_ok (names : List Str) (hd : names.Nodup) (hok : ∀ nm ∈ names, NameOK nm) : TableOK names :=
+  tableOK_of_names names hd hok
 
 /-- T-C12.2 (one row per clause, in order, across pages): reading the rows of all `align` blocks
 in order gives back the clause list — for every page size and both layouts. -/
@@ -204,6 +211,12 @@ example : readOpb (renderOpb true ⟨2, [⟨[(2, 1), (1, -2)], .ge, 2⟩, ⟨[],
 /-- names of the shape cnfgen produces have pairwise distinct literal texts -/
 example : TableOK ["x_{1,2}".toList, "{x_{1,2}}^1".toList, "e[1]_{1,3}".toList, "y".toList, "_u".toList] := by
   unfold TableOK; decide
+
+/-- `NameOK` on names of the shapes cnfgen produces -/
+example : ∀ nm ∈ ["x_{1,2}".toList, "{x_{1,2}}^1".toList, "e[1]_{1,3}".toList, "y".toList, "_u".toList], NameOK nm := by
+  intro nm h
+  simp only [List.mem_cons, List.not_mem_nil, or_false] at h
+  rcases h with rfl | rfl | rfl | rfl | rfl <;> exact ⟨by decide, by intro k hk; revert hk; decide +revert⟩
 
 /-- the excluded region of `TableOK` is real: a variable *named* `\overline{x}_1` next to `x_1` -/
 example : ¬ TableOK ["x_1".toList, "\\overline{x}_1".toList] := by unfold TableOK; decide
